@@ -264,9 +264,9 @@ def r3_mask_elision(ck, P):
         ck.violation(R, g.name, 'source/mask conjunction', 'the operator is strength-reduced for an opaque source without requiring the mask to be opaque too', '%s:%d' % (g.unit.name, g.line))
 
 
-def r6_outside_is_transparent(ck, P):
+def r6_outside_is_transparent(ck, P, rid='C09-R6'):
     """a sample outside a non-repeating image is transparent black, also for formats without alpha"""
-    R = ck.rule('C09-R6', 'where a fetcher substitutes the constant 0 for a sample outside a non-repeating image (a phi of 0 and fetched pixels), that 0 reaches the filter arithmetic unchanged: the alpha-forcing mask of alpha-less formats is or-ed into fetched pixels before the merge, never into the merged value', floor=4)
+    R = ck.rule(rid, 'where a fetcher substitutes the constant 0 for a sample outside a non-repeating image (a phi of 0 and fetched pixels), that 0 reaches the filter arithmetic unchanged: the alpha-forcing mask of alpha-less formats is or-ed into fetched pixels before the merge, never into the merged value', floor=4)
     n = 0
     for f in P.functions():
         if f.unit.name not in ('pixman-fast-path.c', 'pixman-bits-image.c'):
